@@ -576,6 +576,14 @@ func init() {
 			call(fr.i, fr, token.NoPos, args[1], nil)
 			return nil
 		},
+		ndPath + ".SectionSetup": func(fr *frame, args []value) value {
+			// the preparation step runs outside any recorded section
+			call(fr.i, fr, token.NoPos, args[1], nil)
+			fr.i.locks.cur = args[0].(string)
+			defer func() { fr.i.locks.cur = "" }()
+			call(fr.i, fr, token.NoPos, args[2], nil)
+			return nil
+		},
 		ndPath + ".Begin": func(fr *frame, args []value) value { fr.i.locks.cur = args[0].(string); return nil },
 		ndPath + ".End":   func(fr *frame, args []value) value { fr.i.locks.cur = ""; return nil },
 		ndPath + ".NoRace": func(fr *frame, args []value) value {
